@@ -30,7 +30,7 @@ def run(chk, replay=None):
     else:
         (ex, st1), (sim, st2) = tracepar.par([
             lambda: vf.tlc_gen("SceGen.tla", "SceGen2.cfg" if quick else "SceGen3.cfg", env={"QXV_TABLE": tpath}),
-            lambda: vf.tlc_simulate("SceGen.tla", "SceGenSim.cfg", num=40 if quick else 800, depth=70, seed=chk.seed,
+            lambda: vf.tlc_simulate("SceGen.tla", "SceGenSim.cfg", num=40 if quick else 4000, depth=70, seed=chk.seed,
                                     workers=1, env={"QXV_TABLE": ""})])
         # only complete behaviours (ending in Recover) are of interest; prefixes are covered by them
         behs = [b for b in ex + sim if b["steps"] and b["steps"][-1]["a"] == "Recover"]
@@ -54,7 +54,7 @@ def run(chk, replay=None):
     r = vf.qxv("sce", trace, in_path=chk.path("behaviours.ndjson"), seed=chk.seed, tier=chk.tier, check=False)
     vf.repair_truncated(trace)
     cases = vf.split_cases(trace)
-    if (r["sanitizer"] or r["rc"] != 0) and r["rc"] == 2 and not r["sanitizer"]:
+    if r["rc"] != 0 and not r["sanitizer"]:
         raise vf.MachineryError("qxv sce failed: " + r["stderr"][-2000:])
     # 4. trace validation
     s = tracepar.tlc_trace_chunks(chk, "SceTrace.tla", "SceTrace.cfg", tracepar.split_executions(vf.read_ndjson(trace)))
@@ -69,6 +69,18 @@ def run(chk, replay=None):
     chk.cov["diverged_executions"] = s["ndiv"]
     chk.cov["first_divergences"] = s["divs"][:3]
     chk.cov["set_sizes"] = {str(k): v for k, v in sorted(sizes.items())}
+    # vacuity guard (measured): every kind of the table was really emitted by the implementation and recovered somewhere
+    emitted, recovered = set(), set()
+    for lines in cases.values():
+        for o in lines:
+            if o["e"] == "Split" and "pub" in o.get("o", {}):
+                emitted |= set(o["o"]["pub"]) | set(o["o"]["sens"])
+            elif o["e"] == "Recover":
+                recovered |= set(o["o"]["rec"])
+    chk.cov["kinds_seen_emitted"] = len(emitted & set(part))
+    chk.cov["kinds_seen_recovered"] = len(recovered & set(part))
+    if not replay and emitted & set(part) != set(part):
+        raise vf.MachineryError(f"kinds never emitted by the implementation (setter without effect?): {sorted(set(part) - emitted)}")
     chk.cov["exhaustive"] = not replay
     chk.cov["rule"] = ("every consistent set of at most %d of the %d element kinds of spec/Sce.tla (one behaviour each: "
                        "Set.., Split, Recover) + seeded random larger sets (TLC -simulate); each replayed on the real "
